@@ -28,6 +28,7 @@ import (
 	"github.com/skycoin/skycoin/src/util/logging"
 	"github.com/skycoin/skycoin/src/visor"
 
+	"verif/lib/rp"
 	"verif/lib/vf"
 )
 
@@ -626,6 +627,17 @@ func apiLegTODO(r *vf.Run) {
 func main() {
 	logging.Disable()
 	r := vf.Start("C29", "exploration")
+	if p := r.ReplayPath(); p != "" {
+		f := rp.Load(p, "C29")
+		if f.Attrs["leg"] == "function" {
+			calCheck(r, newLocal(), f.U64("n"), f.U64("size"), f.U64("page"))
+		} else {
+			// the visor fixture and the query list are functions of (seed, tier): run the whole leg again
+			r.Seed, r.Tier = f.Seed, f.Tier
+			legVisor(r)
+		}
+		rp.Done("C29", r.Violations())
+	}
 	legs := os.Getenv("VERIF_C29_LEGS") // debugging aid: "function" or "visor" runs one leg only (then floors of the other are missed)
 	if legs == "" || strings.Contains(legs, "function") {
 		legFunction(r)
